@@ -681,10 +681,10 @@ def run_compute(path):
 HEX64 = re.compile(r"(?<![0-9a-fA-F])([0-9a-fA-F]{64})(?![0-9a-fA-F])")
 
 
-def run_signapp_hash(path, cwd=None):
+def run_signapp_hash(path, cwd=None, extra=()):
     install_boundary()
     import signapp
-    with Patched(["signapp.py", "hash", "-a", path], cwd) as p:
+    with Patched(["signapp.py", "hash", "-a", path] + list(extra), cwd) as p:
         code, exc = _call_main(signapp)
     out = p.out.getvalue()
     m = re.search(r"Computed hash: ([0-9a-fA-F]{64})\s*$", out, re.M)
@@ -693,7 +693,7 @@ def run_signapp_hash(path, cwd=None):
              "exit": code, "exc": exc}, [bytes(x) for x in p.sha.inputs], out)
 
 
-def run_signapp_message(path, iteration, out_path=None, cwd=None, out_read=None):
+def run_signapp_message(path, iteration, out_path=None, cwd=None, out_read=None, extra=()):
     """`signapp message`: the hash embedded in the authorization message (stdout form, or the JSON
     file written with -o)."""
     install_boundary()
@@ -701,6 +701,7 @@ def run_signapp_message(path, iteration, out_path=None, cwd=None, out_read=None)
     argv = ["signapp.py", "message", "-a", path, "-i", str(iteration)]
     if out_path:
         argv += ["-o", out_path]
+    argv += list(extra)
     with Patched(argv, cwd) as p:
         code, exc = _call_main(signapp)
     out = p.out.getvalue()
@@ -807,7 +808,7 @@ def verifies(vk, der, digest):
 # ----------------------------------------------------------------------------------------------
 # invocation shapes (spec/AppImage.tla: setup.dirs, Forms)
 # ----------------------------------------------------------------------------------------------
-DEFAULT_FORM = {"addr": "rel", "cwd": "imgdir", "pub": "rel", "spell": "plain"}
+DEFAULT_FORM = {"addr": "rel", "cwd": "imgdir", "pub": "rel", "spell": "plain", "opt": "none"}
 
 
 def image_relpaths(dirs, n):
@@ -988,6 +989,8 @@ class Session:
         sig_expected = {p: i for (_, p), i in zip(spelled, imgs)}   # where the OS puts `<path given>.sig`
         sep = ", " if spaces else ","
         argv = ["signonetime.py", "-a", sep.join(img_args), "-p", pub_arg]
+        if inv.form["opt"] != "none":            # optional flags of the tool, where the parser allows them
+            argv = [argv[0], inv.form["opt"]] + argv[1:] if len(imgs) % 2 else argv + [inv.form["opt"]]
         import signonetime
         g0 = len(REG.log)
         REG.active = True
@@ -1164,6 +1167,8 @@ class AuthSession:
         if out:
             out_abs = os.path.join(self.out_root, self.OUT_NAMES[out])
             argv += ["-o", inv.arg(out_abs, "abs" if inv.form["pub"] == "abs" else "rel", True)[0]]
+        if inv.form["opt"] != "none":
+            argv.append(inv.form["opt"])
         with Patched(argv, inv.cwd) as p:
             code, exc = _call_main(signapp)
         text = p.out.getvalue()
